@@ -10,7 +10,7 @@ from typing import Dict, Iterator, List, Optional, Tuple
 import h2.config
 import h2.connection
 
-from .clients import OP_TEXT, h1_request, ws_close_frame, ws_frame, ws_h1_handshake, ws_h2_headers
+from .clients import OP_PING, OP_TEXT, h1_request, ws_close_frame, ws_frame, ws_h1_handshake, ws_h2_headers
 from .x_c04_ref import (PREFACE, f_data, f_goaway, f_headers, f_ping, f_priority, f_rst, f_settings, f_winup, frame,
                         h2_preamble, server_settings_frame)
 
@@ -25,6 +25,11 @@ APPS = {
     "http:/gated": [("gate", "g"), ("send", START), ("send", BODY)],
     "http:/never": [("recv_until_disconnect",)],
     "websocket": [("recv",), ("send", {"type": "websocket.accept"}), ("echo_ws",)],
+    # WebSocket applications that end the connection themselves once the explorer releases them
+    "websocket:/ret": [("recv",), ("send", {"type": "websocket.accept"}), ("gate", "g"), ("return",)],
+    "websocket:/close": [("recv",), ("send", {"type": "websocket.accept"}), ("gate", "g"),
+                         ("send", {"type": "websocket.close", "code": 1000}), ("return",)],
+    "websocket:/raise": [("recv",), ("send", {"type": "websocket.accept"}), ("gate", "g"), ("raise",)],
 }
 
 # ---------------------------------------------------------------------------------------------
@@ -105,11 +110,24 @@ def _build_corpus() -> Dict[str, tuple]:
     cl.send_data(1, ws_close_frame(1000, "bye"), end_stream=False)
     raw += cl.data_to_send()
     corpus["wsh2"] = ({"carrier": "ws/h2", "tls": True, "alpn": "h2", "ws_streams": (1,)}, _h2_frames(raw), 1)
+    # 7. WebSocket over HTTP/1.1 whose handshake carries the optional token-list headers (subprotocols, extensions)
+    #    and whose close frame is followed by one more frame
+    ext = [(b"Sec-WebSocket-Protocol", b"chat, superchat"), (b"Sec-WebSocket-Extensions", b"permessage-deflate")]
+    tail = [ws_frame(OP_TEXT, b"yo"), ws_close_frame(1000, "bye"), ws_frame(OP_PING, b"late")]
+    corpus["wsh1ext"] = ({"carrier": "ws/h1", "deflate": True}, _lines(ws_h1_handshake(b"/w", ext)) + tail, 1)
+    # 8. the same over HTTP/2; written with literal HPACK (no Huffman coding, no indexing) so that a byte mutation of
+    #    a header value is a byte mutation of what the server's header parsing sees
+    raw = h2_preamble() + f_headers(1, ws_h2_headers(b"/w", [(n.lower(), v) for n, v in ext]), False)
+    raw += b"".join(f_data(1, x, False) for x in tail)
+    corpus["wsh2ext"] = ({"carrier": "ws/h2", "tls": True, "alpn": "h2", "ws_streams": (1,), "deflate": True},
+                         _h2_frames(raw), 1)
     return corpus
 
 
 CORPUS = _build_corpus()
 SESSIONS = list(CORPUS)
+# the two sessions that differ from wsh1 / wsh2 in header lines only are mutated but not spliced
+SPLICE_SESSIONS = [s for s in SESSIONS if not s.endswith("ext")]
 
 
 def session_bytes(name: str) -> bytes:
